@@ -27,6 +27,10 @@ type Case struct {
 	Limit  int      `json:"limit"`
 	Passes int      `json:"passes"`
 	Chosen []string `json:"chosencases"`
+	// ChosenEmptyList: the config carries the key with an explicitly empty list (`chosencases: []`, what a templated
+	// config renders when no tag was picked). No tag is listed to restrict the test to: as everywhere in pandora
+	// (confutil.IsChosenCase: "If no chosenCases provided - returns true") that is "no filter", in both modes.
+	ChosenEmptyList bool `json:"chosencases_given_as_empty_list,omitempty"`
 	// Hold: the consumer acquires this many ammo before it reads any of them (what that many instances do)
 	Hold int `json:"held_at_once"`
 	// DateMW: the provider is configured with `middlewares: [{type: header/date, ...}]` (docs/eng/providers.md,
@@ -69,11 +73,13 @@ func genCase(t *rapid.T) Case {
 		c.Passes = rapid.IntRange(1, 3).Draw(t, "passes")
 	}
 	c.Hold = rapid.SampledFrom([]int{1, 1, 2, 3, 4}).Draw(t, "hold")
-	switch rapid.IntRange(0, 5).Draw(t, "chosenKind") {
+	switch rapid.IntRange(0, 6).Draw(t, "chosenKind") {
 	case 0:
 		// none configured
 	case 1:
 		c.Chosen = []string{"no-such-tag"}
+	case 6:
+		c.ChosenEmptyList = true // the key is there, the list is empty
 	default:
 		n := rapid.IntRange(1, 3).Draw(t, "chosenN")
 		seen := map[string]bool{}
@@ -100,6 +106,17 @@ func genCase(t *rapid.T) Case {
 		}
 	}
 	return c
+}
+
+// chosenDesc renders the chosencases setting of the case for messages.
+func chosenDesc(c Case) string {
+	switch {
+	case len(c.Chosen) > 0:
+		return fmt.Sprintf("%q", c.Chosen)
+	case c.ChosenEmptyList:
+		return "[] (the key is given with an empty list)"
+	}
+	return "(absent)"
 }
 
 func selected(c Case) []ag.Want {
@@ -147,6 +164,8 @@ func run(c Case, preload bool, take int) (outcome, error) {
 			ch[i] = s
 		}
 		conf["chosencases"] = ch
+	} else if c.ChosenEmptyList {
+		conf["chosencases"] = []any{}
 	}
 	if preload {
 		conf["preload"] = true
@@ -234,8 +253,8 @@ func checkWith(c Case, o *vf.Obs, r *vf.Run) error {
 			continue // judged below
 		}
 		if len(out.items) != want {
-			return fmt.Errorf("preload=%v limit=%d passes=%d chosencases=%q: %d ammo delivered, expected %d (%d of the file's %d entries carry a listed tag; limit counts delivered entries, passes counts file passes); Run error: %v\n--- file ---\n%q",
-				preload, c.Limit, c.Passes, c.Chosen, len(out.items), want, len(sel), E, out.runErr, c.File.Render())
+			return fmt.Errorf("preload=%v limit=%d passes=%d chosencases=%s: %d ammo delivered, expected %d (%d of the file's %d entries carry a listed tag; limit counts delivered entries, passes counts file passes); Run error: %v\n--- file ---\n%q",
+				preload, c.Limit, c.Passes, chosenDesc(c), len(out.items), want, len(sel), E, out.runErr, c.File.Render())
 		}
 		okExtra := extraOK
 		if c.DateMW != nil {
@@ -243,21 +262,21 @@ func checkWith(c Case, o *vf.Obs, r *vf.Run) error {
 		}
 		for k, g := range out.items {
 			if err := ag.Compare(sel[k%len(sel)], g, okExtra); err != nil {
-				return fmt.Errorf("preload=%v chosencases=%q: item %d: %v\n--- file ---\n%q", preload, c.Chosen, k, err, c.File.Render())
+				return fmt.Errorf("preload=%v chosencases=%s: item %d: %v\n--- file ---\n%q", preload, chosenDesc(c), k, err, c.File.Render())
 			}
 			if c.DateMW != nil {
 				if err := checkDate(c.DateMW, g); err != nil {
-					return fmt.Errorf("preload=%v limit=%d passes=%d chosencases=%q: item %d (delivery %d of entry %d of the %d selected): %v\n--- file ---\n%q",
-						preload, c.Limit, c.Passes, c.Chosen, k, k/len(sel)+1, k%len(sel), len(sel), err, c.File.Render())
+					return fmt.Errorf("preload=%v limit=%d passes=%d chosencases=%s: item %d (delivery %d of entry %d of the %d selected): %v\n--- file ---\n%q",
+						preload, c.Limit, c.Passes, chosenDesc(c), k, k/len(sel)+1, k%len(sel), len(sel), err, c.File.Render())
 				}
 			}
 		}
 		if X >= 0 {
 			if out.hung != "" {
-				return fmt.Errorf("preload=%v limit=%d passes=%d chosencases=%q: %s", preload, c.Limit, c.Passes, c.Chosen, out.hung)
+				return fmt.Errorf("preload=%v limit=%d passes=%d chosencases=%s: %s", preload, c.Limit, c.Passes, chosenDesc(c), out.hung)
 			}
 			if out.runErr != nil {
-				return fmt.Errorf("preload=%v limit=%d passes=%d chosencases=%q: Run ended with %q after its %d ammo, expected nil", preload, c.Limit, c.Passes, c.Chosen, out.runErr, X)
+				return fmt.Errorf("preload=%v limit=%d passes=%d chosencases=%s: Run ended with %q after its %d ammo, expected nil", preload, c.Limit, c.Passes, chosenDesc(c), out.runErr, X)
 			}
 			if !out.endSeen {
 				return fmt.Errorf("preload=%v: end of ammo not observed", preload)
@@ -268,7 +287,7 @@ func checkWith(c Case, o *vf.Obs, r *vf.Run) error {
 		// nothing may be delivered either way, and both modes must end the same way
 		for i, preload := range []bool{false, true} {
 			if n := len(outs[i].items); n != 0 {
-				return fmt.Errorf("preload=%v chosencases=%q matches no entry but %d ammo were delivered", preload, c.Chosen, n)
+				return fmt.Errorf("preload=%v chosencases=%s matches no entry but %d ammo were delivered", preload, chosenDesc(c), n)
 			}
 		}
 		a, b := outs[0], outs[1]
@@ -285,8 +304,8 @@ func checkWith(c Case, o *vf.Obs, r *vf.Run) error {
 			same = true
 		}
 		if !same {
-			return fmt.Errorf("%s: chosencases=%q matches no entry (passes=%d limit=%d): without preload the provider ends with error=%v hung=%q, with preload error=%v hung=%q — the run does not end the same way",
-				findingEmptyMatch, c.Chosen, c.Passes, c.Limit, a.runErr, a.hung, b.runErr, b.hung)
+			return fmt.Errorf("%s: chosencases=%s matches no entry (passes=%d limit=%d): without preload the provider ends with error=%v hung=%q, with preload error=%v hung=%q — the run does not end the same way",
+				findingEmptyMatch, chosenDesc(c), c.Passes, c.Limit, a.runErr, a.hung, b.runErr, b.hung)
 		}
 	}
 	proper := len(c.Chosen) > 0 && len(sel) > 0 && len(sel) < E
@@ -299,6 +318,11 @@ func checkWith(c Case, o *vf.Obs, r *vf.Run) error {
 	o.ClassIf(emptyMatch, "empty_match")
 	o.ClassIf(proper, "proper_subset")
 	o.ClassIf(len(c.Chosen) == 0, "no_filter")
+	// `chosencases: []` decoded through the config path; with a limit that ends the run before the passes would
+	o.ClassIf(c.ChosenEmptyList, "explicit_empty_chosencases")
+	o.ClassIf(c.ChosenEmptyList && c.Limit > 0, "explicit_empty_chosencases_x_limit")
+	o.ClassIf(c.ChosenEmptyList && X >= 0 && X == c.Limit && (c.Passes == 0 || c.Limit < c.Passes*E), "explicit_empty_chosencases_limit_cuts_run")
+	o.ClassIf(c.ChosenEmptyList && c.Passes > 0, "explicit_empty_chosencases_x_passes")
 	o.ClassIf(X >= 0 && X == c.Limit && proper, "limit_hit_with_filter")
 	if c.DateMW != nil && !emptyMatch {
 		redelivered := len(sel) > 0 && want > len(sel)
